@@ -283,3 +283,4 @@ def run(ctx):
     r7 = ctx.rule('C02.R7', 'TSTATE', 'the predicates that decide which streams receive window deltas agree with the reference on all 15 states (is_send_closed, is_send_streaming)')
     tstate.predicates(r7, ctx.facts, ['is_send_closed', 'is_send_streaming'])
     boundaries.check_amounts(ctx, 'C02.RA', 'C02')
+    boundaries.check_stream_new(ctx, 'C02.RN')
